@@ -467,3 +467,7 @@ _run_c20c = run
 def run(ctx):
     _run_c20c(ctx)
     ctx.guard(r20_4)
+
+
+EXPLANATION = EXPLANATION + " " + (
+    "R20.4: ForwardSDE is instantiated on a row-wise user SDE and g_prod, f_and_g_prod, g_prod_and_gdg_prod (every noise type's form) and dg_ga_jvp_column_sum are evaluated from their own bodies on index-level tensors (one symbol per entry; sizes (3,2,2), (3,1,1), (2,2,1)); misc.vjp / misc.jvp are modelled by their dependency structure only; entry [b, ...] of every output may mention row b of the inputs only and the batch axis must survive.")
